@@ -271,3 +271,47 @@ extern "C" int tokens()
   vf_reach("end");
   return 0;
 }
+
+// ---- printf formatting (libc formatting itself is a reference model, see C18): buffer handling of String::printf
+extern "C" int format()
+{
+  MStr ma; symStr(ma, VF_L);
+  char arg[8]; for(unsigned i = 0; i < ma.n; ++i) arg[i] = (char)ma.v[i]; arg[ma.n] = 0;
+  int num = (int)vf_u32();
+  unsigned which = vf_pick(3);
+  if(which == 0)
+  {
+    String s("old");
+    int r = s.printf("%s-%d", arg, num);
+    // reference: text, '-', decimal number (the digits are checked by parsing them back: two independent formattings
+    // of one symbolic number would make the solver prove uniqueness of decimal representations)
+    vf_assert(r == (int)s.length(), "printf returns the formatted length");
+    vf_assert(s.length() > ma.n + 1, "printf: text, dash and at least one digit");
+    const char* p = s;
+    for(unsigned i = 0; i < ma.n; ++i) vf_assert((byte)p[i] == ma.v[i], "printf: %s part");
+    vf_assert(p[ma.n] == '-', "printf: literal part");
+    vf_assert(String::toInt(p + ma.n + 1) == num, "printf: %d part parses back to the number");
+    vf_assert(p[s.length()] == 0, "printf: terminated at length()");
+  }
+  else if(which == 1)
+  {
+    // longer than the first 200-byte attempt: the retry path must size the buffer from the real length
+    char big[260]; for(unsigned i = 0; i < 259; ++i) big[i] = 'a' + (char)(i % 26); big[259] = 0;
+    String s;
+    int r = s.printf("%s%s", big, arg);
+    vf_assert(r == (int)(259 + ma.n), "printf (retry path) returns the formatted length");
+    vf_assert(s.length() == 259 + ma.n, "printf (retry path): length()");
+    const char* p = s;
+    vf_assert(p[0] == 'a' && p[258] == big[258] && p[259 + ma.n] == 0, "printf (retry path): contents and terminator");
+    for(unsigned i = 0; i < ma.n; ++i) vf_assert((byte)p[259 + i] == ma.v[i], "printf (retry path): tail bytes");
+  }
+  else
+  {
+    String t = String::fromPrintf("%u|%c", (unsigned)num, (int)'z');
+    const char* p = t; usize n = t.length();
+    vf_assert(n >= 3 && p[n - 2] == '|' && p[n - 1] == 'z' && p[n] == 0, "fromPrintf layout");
+    vf_assert(String::toUInt(p) == (uint)num, "fromPrintf: %u part parses back to the number");
+  }
+  vf_reach("end");
+  return 0;
+}
